@@ -10,11 +10,17 @@ RULE = ("all grammars of depth <= 2 over an 8-leaf pool x all strings of length 
         "the reference class, (iii) membership in the proved class `in_class` is evaluated by the model and counted; "
         "(iv) an independent surface-level transcription of the reading (tools/harness/peg_ref.py: whitespace rule decided structurally, "
         "not from the objects' flags) vs the implementation, incl. a family of '&' (Each) grammars over plain / Opt / ZeroOrMore / OneOrMore operands with "
-        "permuted and repeated operand inputs; non-trivial = grammar with >= 3 nodes and non-empty input")
+        "permuted and repeated operand inputs; (v) the extracted model of Each.parseImpl vs the implementation (outcome class, location, message, "
+        "tokens, names) on that family and on a second one (random deep grammars with '&' nodes, results names, error stops, operands that can "
+        "match empty, the same operand twice, Opt(x) & x, named repetitions), and the Coq reading `peg` (case peg_each) vs the implementation on those "
+        "of them that are in the reference class; non-trivial = grammar with >= 3 nodes and non-empty input")
 TRUSTED = pcommon.TRUSTED_PARSE + [
     "the reading `peg` (coq/Model/Peg.v) is the formal statement of the property; `in_class` delimits what is proved "
     "(Or, Combine, stop_on are compared with the reference by correspondence only; SkipTo only model-vs-implementation)",
-    "Each ('&') is not in the Coq model: the implementation is compared with tools/harness/peg_ref.py (a transcription of the property's reading) only"]
+    "Each ('&'): the model (Model/Core.v each_impl) takes the children's mayReturnEmpty flags and the `==` classes of the operands "
+    "(ParserElement.__eq__ is `vars(self) == vars(other)`) from the dump (tools/harness/dump.py each_info); `in_class` contains the Each nodes none of "
+    "whose required operands may return empty (for the others the implementation violates the reading: C01_each_once_refuted); Each with results "
+    "names / actions / such operands is covered by correspondence only"]
 
 
 def peg_of_real(o):
@@ -124,12 +130,19 @@ EACH_POOL = [("lit", "x"), ("lit", "c"), ("word", "12"), ("and", ("opt", ("lit",
              ("mf", ("lit", "m"), ("lit", "n")), ("kw", "k")]
 
 
+EACH_NULLABLE = [("and", ("opt", ("lit", "a")), ("opt", ("lit", "b"))), ("empty",), ("fb", ("lit", "x")), ("plus", ("opt", ("lit", "q")))]
+
+
 def each_family(ctx):
-    """'&' is outside the Coq model: the implementation is compared with the surface-level reading only"""
+    """'&' (Each): (a) the implementation against the surface-level reading of the property (tools/harness/peg_ref.py),
+    (b) the Coq model (Model/Core.v each_impl) against the implementation on the same grammars and inputs, and on a second
+    family (random deep grammars with '&' nodes, results names, operands that can match empty, shared operands) that is
+    compared model-vs-implementation only (full observation: outcome class, location, message, tokens, names)"""
     import itertools
     rng = ctx.rng
     n = 150 if not ctx.thorough else 1500
     ncase = 0
+    groups = []
     for i in range(n):
         ops = rng.sample(EACH_POOL, rng.choice([2, 2, 3, 3, 4]))
         g = ("each",) + tuple(ops)
@@ -143,6 +156,7 @@ def each_family(ctx):
             s = " ".join(p for p in pieces if p)
             inputs.add(s)
             inputs.add(gen.mutate_input(rng, s, "abcxyz12 "))
+        groups.append((g, {}, sorted(inputs), [("none",)], [("parse", False), ("peg",)]))
         for inp in sorted(inputs):
             a = pcommon.single(g, {}, inp, ("none",), ("parse", False)) if False else None
             want = peg_ref.reading(g, {}, inp)
@@ -155,6 +169,67 @@ def each_family(ctx):
                 ctx.violation("each:%r|%r" % (g, inp), "parse_string of %r on %r gives %r but the PEG reading of '&' gives %r" % (g, inp, got, want),
                               {"kind": "each", "grammar": g, "input": inp})
     ctx.stat("each_cases", ncase)
+    # (b) model vs implementation.  The second family draws from its own generator state, so that the cases above
+    # (and their keys) do not depend on it.
+    import random
+    rng2 = random.Random(rng.getrandbits(32))
+    for i in range(120 if not ctx.thorough else 1200):
+        r = rng2.random()
+        if r < 0.6:
+            g = gen.rand_grammar(rng2, rng2.randint(2, 4), dict(names=True, actions=False, stops=rng2.random() < 0.5, fwd=False, extra=True,
+                                                                ws=False, each=True))
+            if "each" not in repr(g):
+                g = ("each", g, rng2.choice(EACH_POOL))
+        else:
+            ops = rng2.sample(EACH_POOL, rng2.choice([1, 2, 3])) + [rng2.choice(EACH_NULLABLE)]
+            if rng2.random() < 0.3:
+                ops.append(rng2.choice(ops))                      # the same operand object twice
+            if rng2.random() < 0.3:
+                ops.append(("opt", rng2.choice([o for o in ops if o[0] not in ("opt",)] or [("lit", "x")])))     # Opt(x) & x
+            if rng2.random() < 0.3:
+                ops.append(("andstop", 1, ("lit", "c"), ("lit", "y")))       # 'c' - 'y' : fatal errors collected by Each
+            if rng2.random() < 0.2:
+                ops.append(("name", "n", ("plus", ("lit", "z"))))            # named repetition: the copies of initExprGroups
+            rng2.shuffle(ops)
+            g = ("each",) + tuple(ops)
+            if rng2.random() < 0.3:
+                g = rng2.choice([("and", g, ("lit", "!")), ("group", g), ("name", "n", g), ("star", ("and", ("lit", "("), g, ("lit", ")")))])
+        inputs = set()
+        for _ in range(5):
+            s = gen.sample_input(rng2, g, {})[:60]
+            inputs.add(s)
+            inputs.add(gen.mutate_input(rng2, s, "abcxyz12 "))
+        groups.append((g, {}, sorted(inputs), [("none",)], [("parse", False), ("peg",)]))
+    stats = {}
+    recs = corr.run_groups(groups, stats=stats)
+    from tools.harness import observe
+    retried = 0
+    for r in recs:
+        if not r.get("agree", True) and r["real"] == ("div",) and retried < 8:
+            # the 0.5 s budget of run_real also cuts off parses that are merely slow: decide (a few of them) with a long budget
+            retried += 1
+            r["real"] = observe.run_real(r["root"], r["dumper"], r["inp"], r["mode"], r["entry"], timeout=20)
+            r["agree"] = corr.proj_all(r["model"]) == corr.proj_all(r["real"])
+    ctx.stat("each_model_unsupported_grammars", stats.get("unsupported", 0))
+    parse_recs = [r for r in recs if r["entry"][0] == "parse"]
+    pegs = {(repr(r["g"]), r["inp"]): r for r in recs if r["entry"][0] == "peg"}
+    for r in parse_recs:
+        ctx.case("each-model:" + pcommon.key_of(r), len(r["inp"]) >= 3, r.get("agree", True))
+        ctx.stat("each_model_outcome_" + corr.kind_of(r["real"]))
+        # (c) the Coq reference reading `peg` (its '&' case is peg_each) vs the implementation, on the grammars of the
+        # reference class (in_ref_class excludes Each nodes with a required operand that may return empty)
+        p = pegs.get((repr(r["g"]), r["inp"]))
+        if p is None or p["model"][0] != "peg" or not p["model"][2]:
+            continue
+        ctx.stat("each_cases_in_reference_class")
+        ctx.stat("each_cases_in_proved_class", int(p["model"][1]))
+        want, got = peg_of_ref(p["model"][3]), peg_of_real(r["real"])
+        if want != got and "div" not in (want[0], got[0]):
+            ctx.violation("peg-each:%r|%r" % (r["g"], r["inp"]),
+                          "parse_string of %r on %r gives %r but the PEG reading (Model/Peg.v peg_each) gives %r%s" % (
+                              r["g"], r["inp"], got, want, " [grammar is in the proved class]" if p["model"][1] else ""),
+                          {"kind": "peg", "grammar": r["g"], "env": {}, "input": r["inp"]})
+    pcommon.model_agreement(ctx, parse_recs, "each-parse-outcomes")
 
 
 def each_impl(g, inp):
